@@ -1,72 +1,92 @@
 #!/venv/bin/python
 """Differential test of the literal layer of C01: Lean model `Jaqal.NumText` vs the real code.
 
-  real `generate_jaqal_value(x)`                      vs  op `gen_num`
-  real `JaqalLexer().tokenize(text)` (one token?)     vs  op `read_literal`
-  `re.match` of the lexer's NUMBER / INT patterns     vs  ops `match_number`, `match_int` (prefix matches)
+Correspondence (model vs implementation), through the native line-protocol driver:
+  gen_num       real `generate_jaqal_value(x)`                         vs op `gen_num`
+  read_literal  real `JaqalLexer().tokenize(text)` (whole text 1 token?) vs op `read_literal`
+  match_number  `re.match` of the lexer's own NUMBER pattern             vs op `match_number`
+  match_int     `re.match` of the lexer's own INT pattern                vs op `match_int`
 
-Run:  /venv/bin/python /verif/harness/agents/num_diff.py [--lean-dir /verif/lean] [--n 6000] [--seed 1]
-It builds `JaqalModel.Model.NumTextOps` in the lean dir and talks to a tiny line-protocol driver run
-with `lake env lean --run` (or pass `--driver "<cmd>"` for a native driver that knows the two ops).
-Exit status 0 iff there are zero differences.
+Direct oracles (the property on the real code alone, no Lean involved):
+  literal_roundtrip   the real lexer reads `generate_jaqal_value(x)` back as ONE token whose value == x
+                      with the same type class (float/int, same repr, so -0.0 stays -0.0), also when
+                      followed by a blank and another literal; generating the value read is byte-identical.
+  literal_in_program  `let v <x>\\nregister r[1]\\ng <x> <y>\\n` parses (values as expected: the let holds
+                      `as_integer(x)`), generates, re-parses to an equal circuit, re-generates byte-identically.
+
+Import:  PYTHONPATH=/verif  →  `from harness.agents import num_diff; num_diff.run(seed, n)`
+CLI:     /venv/bin/python /verif/harness/agents/num_diff.py [--n 3000] [--seed 1] [--thorough]
+                                                            [--driver PATH | --lean-dir DIR]
+Exit status 0 iff there are no disagreements and no oracle failures.
+
+Float domain (DESIGN.md §3.3): decimals with <= 15 significant digits, scientific exponent -300..300
+(both `repr` layouts, every digit count, both signs, +-0.0). Int domain: any int below CPython's 4300
+digit limit. A float case is recorded as its `repr` (exact), an int as its decimal string.
 """
-import argparse, json, os, random, re, subprocess, sys, tempfile
+import argparse
+import json
+import random
+import re
+import shlex
+import subprocess
+import sys
 from decimal import Decimal
 
-from jaqalpaq.generator.generator import generate_jaqal_value
-from jaqalpaq.parser.slyparse import JaqalLexer
-from jaqalpaq.error import JaqalError
-
+DEFAULT_DRIVER = "/verif/lean/.lake/build/bin/jaqal-model"
 NUMBER_RE = r"[-+]?[0-9]*\.[0-9]+([eE][-+]?[0-9]+)?"
 INT_RE = r"[-+]?[0-9]+"
-
-DRIVER = r'''
-import JaqalModel.Model.NumTextOps
-open Lean Jaqal
-def handle (line : String) : String :=
-  match Json.parse line with
-  | .error e => (jobj [("err", .str s!"bad json: {e}")]).compress
-  | .ok j =>
-    match (do let op ← jstr (← jget j "op")
-              match NumText.ops.lookup op with
-              | some f => f j
-              | none => .error s!"unknown op {op}") with
-    | .ok out => (jobj [("out", out)]).compress
-    | .error e => (jobj [("err", .str e)]).compress
-partial def loop (h o : IO.FS.Stream) : IO Unit := do
-  let line ← h.getLine
-  if line.isEmpty then return ()
-  let l := line.trimAscii.toString
-  if !l.isEmpty then o.putStrLn (handle l)
-  loop h o
-def main : IO Unit := do
-  let o ← IO.getStdout
-  loop (← IO.getStdin) o
-  o.flush
-'''
+MAX_LIST = 20
 
 
-def run_model(requests, lean_dir, driver):
+# ----------------------------------------------------------------------------------------------
+# real code (imported lazily: nothing happens at import time)
+
+def _real():
+    from jaqalpaq.generator.generator import generate_jaqal_value
+    from jaqalpaq.generator import generate_jaqal_program
+    from jaqalpaq.parser.slyparse import JaqalLexer
+    from jaqalpaq.parser import parse_jaqal_string
+    from jaqalpaq.error import JaqalError
+    return generate_jaqal_value, generate_jaqal_program, JaqalLexer, parse_jaqal_string, JaqalError
+
+
+def _patterns():
+    JaqalLexer = _real()[2]
+    num = getattr(JaqalLexer.NUMBER, "pattern", NUMBER_RE)
+    int_ = getattr(JaqalLexer.INT, "pattern", INT_RE)
+    return {"match_number": re.compile(num), "match_int": re.compile(int_)}
+
+
+# ----------------------------------------------------------------------------------------------
+# driver
+
+def call_driver(requests, driver):
+    """One subprocess for the whole batch; returns the list of reply objects."""
+    if not requests:
+        return []
     data = "".join(json.dumps(r) + "\n" for r in requests)
-    if driver:
-        out = subprocess.run(driver, shell=True, input=data, capture_output=True, text=True, check=True).stdout
-    else:
-        subprocess.run(["lake", "build", "JaqalModel.Model.NumTextOps"], cwd=lean_dir, check=True,
-                       stdout=subprocess.DEVNULL)
-        with tempfile.NamedTemporaryFile("w", suffix=".lean", delete=False) as f:
-            f.write(DRIVER)
-        try:
-            out = subprocess.run(["lake", "env", "lean", "--run", f.name], cwd=lean_dir, input=data,
-                                 capture_output=True, text=True, check=True).stdout
-        finally:
-            os.unlink(f.name)
-    lines = [json.loads(l) for l in out.splitlines() if l.strip()]
-    assert len(lines) == len(requests), (len(lines), len(requests))
+    p = subprocess.run(shlex.split(driver), input=data, capture_output=True, text=True)
+    if p.returncode != 0:
+        raise RuntimeError(f"driver failed ({p.returncode}): {p.stderr[:500]}")
+    lines = [json.loads(l) for l in p.stdout.splitlines() if l.strip()]
+    if len(lines) != len(requests):
+        raise RuntimeError(f"driver returned {len(lines)} lines for {len(requests)} requests")
     return lines
 
 
+# ----------------------------------------------------------------------------------------------
+# values <-> JSON
+
+def val_case(v):
+    return {"f": repr(v)} if isinstance(v, float) else {"i": str(v)}
+
+
+def case_val(c):
+    return float(c["f"]) if "f" in c else int(c["i"])
+
+
 def dec_of_float(x):
-    """The model's `Dec` of a real float: exact shortest decimal, canonical; as Num JSON."""
+    """The model's `Dec` of a real float (exact shortest decimal, canonical), as Num JSON."""
     sign, digs, exp = Decimal(repr(x)).as_tuple()
     digs = list(digs)
     while len(digs) > 1 and digs[-1] == 0:
@@ -78,13 +98,11 @@ def dec_of_float(x):
 
 
 def num_json(v):
-    if isinstance(v, float):
-        return dec_of_float(v)
-    return {"i": str(v)}
+    return dec_of_float(v) if isinstance(v, float) else {"i": str(v)}
 
 
 def norm_json(j):
-    """Model output → comparable form (ints are decimal strings on output)."""
+    """Model output -> comparable form."""
     if j is None:
         return None
     if "i" in j:
@@ -93,148 +111,337 @@ def norm_json(j):
     return {"f": [bool(n), str(m), str(e)]}
 
 
+def same_number(a, b):
+    """== and same type class and same repr (distinguishes 0.0 / -0.0, 3 / 3.0)."""
+    return type(a) is type(b) and a == b and repr(a) == repr(b)
+
+
+# ----------------------------------------------------------------------------------------------
+# generators (everything from the one `rng`)
+
+SPECIAL = [0.0, -0.0, 1e-06, -1e-06, 1e16, 1e15, 9999999999999998.0, 1e-4, 1e-5, 1.5e-5, 1e22, 1e21,
+           123456789012345.0, 1234567890123456.0, 1.0, -1.0, 3.0, 0.1, 1e100, 1.5e100, 1e-100, 2.5e-300,
+           0, 1, -1, 7, 10, -10, 100, 10 ** 15, 10 ** 16, 10 ** 100, -(10 ** 100), 2 ** 64, -(2 ** 63),
+           10 ** 300 + 1]
+
+
+def rand_float(rng, near_switch):
+    n = rng.randint(1, 15)
+    m = rng.randint(10 ** (n - 1), 10 ** n - 1)
+    if rng.random() < 0.8 and m % 10 == 0:
+        m += 1
+    e = rng.randint(-8, 20) if near_switch else rng.randint(-300, 300)   # scientific exponent
+    return float(f"{rng.choice(['', '-'])}{m}e{e - (n - 1)}")
+
+
+def gen_values(rng, n, thorough):
+    vals = list(SPECIAL)
+    grid = []
+    for nd in range(1, 16):                      # every digit count x every exponent near the layout switch
+        for e in list(range(-8, 20)) + [-300, -299, 299, 300, -100, 100]:
+            for sgn in ("", "-"):
+                m = rng.randint(10 ** (nd - 1), 10 ** nd - 1)
+                if m % 10 == 0:
+                    m += 1
+                grid.append(float(f"{sgn}{m}e{e - (nd - 1)}"))
+    if n < len(SPECIAL) + len(grid):
+        rng.shuffle(grid)
+        grid = grid[: max(0, n - len(SPECIAL))]
+    vals += grid
+    sizes = [1, 2, 5, 18, 19, 20, 40, 100, 300, 1000] + ([4000] if thorough else [])
+    while len(vals) < n:
+        if rng.random() < 0.75:
+            vals.append(rand_float(rng, rng.random() < 0.4))
+        else:
+            vals.append(rng.choice([1, -1]) * rng.randint(0, 10 ** rng.choice(sizes)))
+    return vals[:max(n, len(SPECIAL))]
+
+
+def gen_texts(rng, gen_text, n):
+    """Texts to read: generated ones, mutations of them, and character soup."""
+    texts = list(gen_text)
+    for t in gen_text[: max(1, n // 3)]:
+        texts.append("+" + t if t[0] != "-" else t[1:])
+        if "e" in t:
+            i = t.index("e")
+            texts += [t.replace("e", "E"), t.replace(".0e", "e"), t.replace("e+", "e"), t[: i + 1], t[: i + 2]]
+        if "." in t:
+            i = t.index(".")
+            texts += [t[: i + 1], t[i:], t + ".5"]
+        texts += [t + "0", "00" + t, t + "e5", t + "e-3", t + " ", " " + t]
+    alphabet = "0123456789" * 2 + "..eE+-" + "x_ \n"
+    for _ in range(n):
+        texts.append("".join(rng.choice(alphabet) for _ in range(rng.randint(0, 8))))
+    for a, b in zip(gen_text[: n // 3], gen_text[n // 3: 2 * (n // 3)]):
+        texts.append(a + rng.choice(" ;|x.eE+-0") + b)
+    texts += ["", ".", ".5", "+.5", "-.5e3", "1.", "1.e5", "1e5", "1.5e", "1.5e+", "1.5e+5", "1.5E-05", "-0.0",
+              "+0", "-0", "007", "1.5.5", "1.5e5.5", "1_0", "--1", "+-1", "1.5e--5", "0.0e0", "-0.0e5", "0.000",
+              "00.100", "1e-06", "1.0e-06"]
+    return texts
+
+
+# ----------------------------------------------------------------------------------------------
+# implementation side of the correspondence
+
 def real_literal(text):
-    """What the real lexer makes of `text` if the whole of it is exactly one NUMBER/INT token, else None.
-    Returns ("skip", why) when the float conversion leaves the modelled range."""
+    """("num", v) if the whole of `text` is exactly one NUMBER/INT token; ("none",) otherwise;
+    ("skip", why) when `float()` leaves the modelled range (inf)."""
+    _, _, JaqalLexer, _, JaqalError = _real()
     try:
         toks = list(JaqalLexer().tokenize(text))
     except JaqalError as exc:
-        if "out of range" in str(exc):
-            return ("skip", "inf")
-        return None
+        return ("skip", "inf") if "out of range" in str(exc) else ("none",)
     except Exception:
-        return None
+        return ("none",)
     if len(toks) != 1 or toks[0].type not in ("NUMBER", "INT"):
-        return None
-    if toks[0].index != 0 or toks[0].end != len(text):             # blanks around it are not part of the literal
-        return None
-    v = toks[0].value
-    assert (toks[0].type == "NUMBER") == isinstance(v, float)
-    return v
+        return ("none",)
+    if toks[0].index != 0 or toks[0].end != len(text):       # blanks around it are not part of the literal
+        return ("none",)
+    return ("num", toks[0].value)
 
 
-def sig_digits_and_sciexp(text):
-    """(number of mantissa digits, scientific exponent) of a NUMBER text, to decide whether float()
-    is exact on it (≤ 15 digits, normal range)."""
+def float_is_exact(text):
+    """Is `float(text)` certainly the exact decimal value of a NUMBER text (<= 15 digits, normal range)?"""
     t = text.lstrip("+-").lower()
     mant, _, ex = t.partition("e")
     ip, _, fp = mant.partition(".")
-    digs = (ip + fp).lstrip("0")
     e = int(ex) if ex else 0
-    return len(ip + fp), e + len(ip.lstrip("0")) - 1 if ip.lstrip("0") else e - (len(fp) - len(fp.lstrip("0"))) - 1
+    return len(ip + fp) <= 15 and -280 <= e - len(fp) and e + len(ip) <= 280
 
 
-def main():
-    ap = argparse.ArgumentParser()
-    ap.add_argument("--lean-dir", default="/verif/lean")
-    ap.add_argument("--driver", default=None)
-    ap.add_argument("--n", type=int, default=6000)
-    ap.add_argument("--seed", type=int, default=1)
-    a = ap.parse_args()
-    rng = random.Random(a.seed)
+def compare_read(text, rv, model_reply):
+    """-> (how, ok, impl_json, model_json); how in exact|kind|none|skip."""
+    if "err" in model_reply:
+        return "exact", False, None, model_reply
+    mj = norm_json(model_reply["out"])
+    if rv[0] == "skip":
+        return "skip", True, "inf", mj
+    if rv[0] == "none":
+        return "none", mj is None, None, mj
+    v = rv[1]
+    if mj is None:
+        return "exact", False, val_case(v), mj
+    if isinstance(v, float):
+        if "f" not in mj:
+            return "kind", False, val_case(v), mj
+        if not float_is_exact(text):
+            return "kind", True, val_case(v), mj           # float() may round: compare the token kind only
+    return "exact", num_json(v) == mj, num_json(v), mj
 
-    # ---------- values to write -------------------------------------------------------------
-    values = [0.0, -0.0, 1e-06, -1e-06, 1e16, 1e15, 9999999999999998.0, 1e-4, 1e-5, 0.0001, 1.5e-5, 1e22, 1e21,
-              123456789012345.0, 1234567890123456.0, 1.0, -1.0, 3.0, 0.1, 1e100, 1.5e100, 1e-100, 5e-324 * 0 + 2.5e-300,
-              0, 1, -1, 7, 10, -10, 100, 10**15, 10**16, 10**100, -(10**100), 2**64, -(2**63), 10**300 + 1]
-    for n in range(1, 16):                       # every digit count, every sci exponent near the layout switch
-        for e in list(range(-8, 20)) + [-300, -299, 299, 300, -100, 100]:
-            for sgn in ("", "-"):
-                m = rng.randint(10 ** (n - 1), 10 ** n - 1)
-                if m % 10 == 0: m += 1
-                values.append(float(f"{sgn}{m}e{e - (n - 1)}"))
-    while len(values) < a.n:
-        if rng.random() < 0.75:
-            n = rng.randint(1, 15); m = rng.randint(10 ** (n - 1), 10 ** n - 1)
-            if rng.random() < 0.8 and m % 10 == 0: m += 1
-            e = rng.randint(-300, 300) if rng.random() < 0.6 else rng.randint(-8, 20)
-            values.append(float(f"{rng.choice(['', '-'])}{m}e{e - (n - 1)}"))
+
+# ----------------------------------------------------------------------------------------------
+# direct oracles
+
+def oracle_literal_roundtrip(v):
+    """-> (ok, detail)."""
+    gen, _, JaqalLexer, _, _ = _real()
+    try:
+        t = gen(v)
+        toks = list(JaqalLexer().tokenize(t))
+        if len(toks) != 1:
+            return False, f"{t!r} lexes as {[(k.type, k.value) for k in toks]}"
+        k = toks[0]
+        if k.type != ("NUMBER" if isinstance(v, float) else "INT") or not same_number(k.value, v):
+            return False, f"{t!r} read back as {k.type} {k.value!r}"
+        if k.index != 0 or k.end != len(t):
+            return False, f"{t!r}: token covers [{k.index},{k.end}) only"
+        if gen(k.value) != t:
+            return False, f"second generation {gen(k.value)!r} != {t!r}"
+        toks = list(JaqalLexer().tokenize(f"{t} {t}\n"))
+        if [x.type for x in toks] != [k.type, k.type, "NL"] or not all(same_number(x.value, v) for x in toks[:2]):
+            return False, f"{t!r} followed by a blank and itself lexes as {[(x.type, x.value) for x in toks]}"
+        return True, ""
+    except Exception as exc:                                   # noqa: BLE001
+        return False, f"{type(exc).__name__}: {exc}"
+
+
+def program_text(x, y):
+    gen = _real()[0]
+    gx, gy = gen(x), gen(y)
+    return f"let v {gx}\nregister r[1]\ng {gx} {gy}\n"
+
+
+def oracle_literal_in_program(x, y):
+    _, genprog, _, parse, _ = _real()
+    from jaqalpaq.core.circuitbuilder import as_integer
+    try:
+        txt = program_text(x, y)
+        c = parse(txt, autoload_pulses=False)
+        stored = c.constants["v"].value
+        if not same_number(stored, as_integer(x)) or stored != x:
+            return False, f"let holds {stored!r}, expected as_integer({x!r})"
+        params = list(c.body.statements[0].parameters.values())
+        if len(params) != 2 or not same_number(params[0], x) or not same_number(params[1], y):
+            return False, f"gate arguments {params!r}, expected [{x!r}, {y!r}]"
+        g1 = genprog(c)
+        c2 = parse(g1, autoload_pulses=False)
+        if c2 != c:
+            return False, f"re-parsed circuit differs; generated text {g1!r}"
+        g2 = genprog(c2)
+        if g2 != g1:
+            return False, f"second generation differs: {g1!r} vs {g2!r}"
+        return True, ""
+    except Exception as exc:                                   # noqa: BLE001
+        return False, f"{type(exc).__name__}: {exc}"
+
+
+# ----------------------------------------------------------------------------------------------
+# protocol
+
+def _add(lst, item):
+    if len(lst) < MAX_LIST:
+        lst.append(item)
+
+
+def run(seed: int, n: int, driver: str = DEFAULT_DRIVER, thorough: bool = False) -> dict:
+    rng = random.Random(seed)
+    if thorough:
+        n *= 5
+    gen = _real()[0]
+    corr = {op: {"cases": 0, "disagreements": []} for op in ("gen_num", "read_literal", "match_number", "match_int")}
+    oracle = {o: {"cases": 0, "failures": []} for o in ("literal_roundtrip", "literal_in_program")}
+    dist = {}
+
+    def bump(k, d=1):
+        dist[k] = dist.get(k, 0) + d
+
+    # ---- gen_num -------------------------------------------------------------------------
+    values = gen_values(rng, n, thorough)
+    real_text = [gen(v) for v in values]
+    replies = call_driver([{"op": "gen_num", "num": num_json(v)} for v in values], driver)
+    for v, rt, rep in zip(values, real_text, replies):
+        corr["gen_num"]["cases"] += 1
+        if rep.get("out") != rt:
+            _add(corr["gen_num"]["disagreements"],
+                 {"case": {"op": "gen_num", "value": val_case(v)}, "model": rep, "impl": rt})
+        if isinstance(v, float):
+            bump("float"); bump("float_exponent_layout" if "e" in rt else "float_fixed_layout")
+            if "e" in rt and ".0e" in rt: bump("float_one_digit_exponent_layout(the repaired case)")
+            if v == 0: bump("float_zero")
+            if v == int(v): bump("float_integral")
+            bump(f"float_digits_{len(dec_of_float(v)['f'][1]):02d}")
         else:
-            k = rng.choice([1, 2, 5, 18, 19, 20, 40, 100, 300, 1000])
-            values.append(rng.choice([1, -1]) * rng.randint(0, 10 ** k))
+            bump("int"); bump("int_huge(>64bit)" if abs(v) >= 2 ** 64 else "int_small")
+        if rt.startswith("-"): bump("negative")
 
-    real_text = [generate_jaqal_value(v) for v in values]
-    model_text = run_model([{"op": "gen_num", "num": num_json(v)} for v in values], a.lean_dir, a.driver)
-    bad = 0
-    for v, rt, mt in zip(values, real_text, model_text):
-        if mt.get("out") != rt:
-            bad += 1
-            if bad <= 20: print("GEN DIFF", repr(v), "real", rt, "model", mt)
-    print(f"gen_num: {len(values)} values ({sum(isinstance(v, float) for v in values)} floats, "
-          f"{sum('e' in t for t in real_text)} in exponent layout), differences: {bad}")
-
-    # ---------- texts to read: the generated ones, variations of them, and random soup -------
-    texts = list(real_text)
-    for t in real_text[: a.n // 3]:
-        texts.append("+" + t if t[0] != "-" else t[1:])
-        if "e" in t:
-            texts.append(t.replace("e", "E")); texts.append(t.replace(".0e", "e")); texts.append(t.replace("e+", "e"))
-            texts.append(t[: t.index("e") + 1]); texts.append(t[: t.index("e") + 2])
-        if "." in t:
-            texts.append(t[: t.index(".") + 1]); texts.append(t[t.index("."):]); texts.append(t + ".5")
-        texts.append(t + "0"); texts.append("00" + t); texts.append(t + "e5"); texts.append(t + "e-3"); texts.append(t + " ")
-    alphabet = "0123456789" * 2 + "..eE+-" + "x_ \n"
-    for _ in range(a.n):
-        texts.append("".join(rng.choice(alphabet) for _ in range(rng.randint(0, 8))))
-    texts += ["", ".", ".5", "+.5", "-.5e3", "1.", "1.e5", "1e5", "1.5e", "1.5e+", "1.5e+5", "1.5E-05", "-0.0", "+0", "-0",
-              "007", "1.5.5", "1.5e5.5", "1_0", "--1", "+-1", "1.5e--5", "0.0e0", "-0.0e5", "0.000", "00.100"]
-
-    real_vals = [real_literal(t) for t in texts]
-    model_vals = run_model([{"op": "read_literal", "text": t} for t in texts], a.lean_dir, a.driver)
-    bad2 = skipped = exact = kinds = 0
-    for t, rv, mv in zip(texts, real_vals, model_vals):
-        if "err" in mv:
-            bad2 += 1; print("MODEL ERR", repr(t), mv); continue
-        mj = norm_json(mv["out"])
-        if isinstance(rv, tuple):                                  # inf: outside the model
-            skipped += 1; continue
-        if rv is None or mj is None:
-            kinds += 1
-            if not (rv is None and mj is None):
-                bad2 += 1
-                if bad2 <= 20: print("READ DIFF", repr(t), "real", rv, "model", mj)
-            continue
-        if isinstance(rv, float):
-            nd, se = sig_digits_and_sciexp(t)
-            if "f" not in mj:
-                bad2 += 1; print("READ KIND DIFF", repr(t), rv, mj); continue
-            if nd > 15 or abs(se) > 290:                           # float() may round: compare the kind only
-                kinds += 1; continue
-        exact += 1
-        if num_json(rv) != mj:
-            bad2 += 1
-            if bad2 <= 20: print("READ DIFF", repr(t), "real", num_json(rv), "model", mj)
-    print(f"read_literal: {len(texts)} texts ({exact} compared by exact value, {kinds} by token kind/None, "
-          f"{skipped} skipped as inf), differences: {bad2}")
-
-    # ---------- prefix matches of the two token patterns (taken from the lexer class) -----------
-    pats = {"match_number": re.compile(JaqalLexer.NUMBER.pattern if hasattr(JaqalLexer.NUMBER, "pattern") else NUMBER_RE),
-            "match_int": re.compile(JaqalLexer.INT.pattern if hasattr(JaqalLexer.INT, "pattern") else INT_RE)}
-    soup = [t for t in texts if "\n" not in t] + [t + rng.choice(" ;|x.eE+-0") + t2
-                                                   for t, t2 in zip(real_text[:2000], real_text[1000:3000])]
-    bad4 = 0
-    for op, pat in pats.items():
-        outs = run_model([{"op": op, "text": t} for t in soup], a.lean_dir, a.driver)
-        for t, o in zip(soup, outs):
+    # ---- read_literal, match_number, match_int --------------------------------------------
+    texts = gen_texts(rng, real_text, n)
+    replies = call_driver([{"op": "read_literal", "text": t} for t in texts], driver)
+    for t, rep in zip(texts, replies):
+        rv = real_literal(t)
+        how, ok, impl, model = compare_read(t, rv, rep)
+        corr["read_literal"]["cases"] += 1
+        bump(f"read_compared_by_{how}")
+        if rv[0] == "num": bump("read_is_float" if isinstance(rv[1], float) else "read_is_int")
+        if not ok:
+            _add(corr["read_literal"]["disagreements"],
+                 {"case": {"op": "read_literal", "text": t}, "model": model, "impl": impl})
+    for op, pat in _patterns().items():
+        replies = call_driver([{"op": op, "text": t} for t in texts], driver)
+        for t, rep in zip(texts, replies):
             m = pat.match(t)
             want = None if m is None else [t[: m.end()], t[m.end():]]
-            if o.get("out", "missing") != want:
-                bad4 += 1
-                if bad4 <= 20: print("MATCH DIFF", op, repr(t), "re", want, "model", o)
-    print(f"match_number/match_int vs re.match: 2 x {len(soup)} texts, differences: {bad4}")
+            corr[op]["cases"] += 1
+            bump(f"{op}_{'hit' if m else 'miss'}")
+            if m and m.end() < len(t): bump(f"{op}_proper_prefix")
+            if rep.get("out", "missing") != want:
+                _add(corr[op]["disagreements"], {"case": {"op": op, "text": t}, "model": rep, "impl": want})
 
-    # ---------- round trip and token separation on the real code (sanity of the harness) ------
-    bad3 = 0
-    for v, t in zip(values, real_text):
-        toks = list(JaqalLexer().tokenize(f"{t} {t}\n"))
-        ok = [k.type for k in toks] in (["NUMBER", "NUMBER", "NL"], ["INT", "INT", "NL"]) and \
-            all(k.value == v and type(k.value) is type(v) and repr(k.value) == repr(v) for k in toks[:2])
+    # ---- direct oracles ---------------------------------------------------------------------
+    for v in values:
+        ok, detail = oracle_literal_roundtrip(v)
+        oracle["literal_roundtrip"]["cases"] += 1
         if not ok:
-            bad3 += 1
-            if bad3 <= 20: print("REAL ROUNDTRIP FAIL", repr(v), t, toks)
-    print(f"real code round trip / separation: {len(values)} values, failures: {bad3}")
-    sys.exit(1 if bad or bad2 or bad3 or bad4 else 0)
+            _add(oracle["literal_roundtrip"]["failures"],
+                 {"case": {"oracle": "literal_roundtrip", "value": val_case(v)}, "detail": detail})
+    nprog = len(values) if thorough else min(len(values), max(200, n // 4))
+    xs = values[:len(SPECIAL)] + rng.sample(values, max(0, nprog - len(SPECIAL)))
+    for x in xs[:nprog]:
+        y = rng.choice(values)
+        ok, detail = oracle_literal_in_program(x, y)
+        oracle["literal_in_program"]["cases"] += 1
+        if not ok:
+            _add(oracle["literal_in_program"]["failures"],
+                 {"case": {"oracle": "literal_in_program", "x": val_case(x), "y": val_case(y)}, "detail": detail})
+
+    distinct_values = {json.dumps(val_case(v)) for v in values if v not in (0, 1, -1)}
+    distinct_texts = {t for t in texts if len(t) >= 2}
+    samples = [{"op": "gen_num", "value": val_case(v), "impl": t} for v, t in list(zip(values, real_text))[40:46]]
+    samples += [{"op": "read_literal", "text": t} for t in texts[len(real_text): len(real_text) + 4]]
+    samples.append({"oracle": "literal_in_program", "program": program_text(values[2], values[40 % len(values)])})
+    return {"corr": corr, "oracle": oracle, "distribution": dict(sorted(dist.items())), "samples": samples,
+            "nontrivial": len(distinct_values) + len(distinct_texts)}
+
+
+def replay(case: dict, driver: str = DEFAULT_DRIVER) -> dict:
+    """Re-run ONE case taken from a `disagreements` / `failures` entry."""
+    gen = _real()[0]
+    if "oracle" in case:
+        if case["oracle"] == "literal_roundtrip":
+            v = case_val(case["value"])
+            ok, detail = oracle_literal_roundtrip(v)
+            model = call_driver([{"op": "gen_num", "num": num_json(v)}], driver)[0]
+            try: impl = gen(v)
+            except Exception as exc: impl = f"{type(exc).__name__}: {exc}"   # noqa: BLE001
+            return {"model": model, "impl": impl, "oracle_ok": ok, "detail": detail}
+        if case["oracle"] == "literal_in_program":
+            x, y = case_val(case["x"]), case_val(case["y"])
+            ok, detail = oracle_literal_in_program(x, y)
+            try: impl = program_text(x, y)
+            except Exception as exc: impl = f"{type(exc).__name__}: {exc}"   # noqa: BLE001
+            return {"model": None, "impl": impl, "oracle_ok": ok, "detail": detail}
+        raise ValueError(f"unknown oracle {case['oracle']}")
+    op = case["op"]
+    if op == "gen_num":
+        v = case_val(case["value"])
+        model = call_driver([{"op": "gen_num", "num": num_json(v)}], driver)[0]
+        impl = gen(v)
+        ok, detail = oracle_literal_roundtrip(v)
+        return {"model": model, "impl": impl, "oracle_ok": ok,
+                "detail": ("agree" if model.get("out") == impl else "DISAGREE") + ("" if ok else "; " + detail)}
+    t = case["text"]
+    model = call_driver([{"op": op, "text": t}], driver)[0]
+    if op == "read_literal":
+        how, ok, impl, mj = compare_read(t, real_literal(t), model)
+        return {"model": mj, "impl": impl, "oracle_ok": None,
+                "detail": f"{'agree' if ok else 'DISAGREE'} (compared by {how})"}
+    if op in ("match_number", "match_int"):
+        m = _patterns()[op].match(t)
+        impl = None if m is None else [t[: m.end()], t[m.end():]]
+        return {"model": model, "impl": impl, "oracle_ok": None,
+                "detail": "agree" if model.get("out", "missing") == impl else "DISAGREE"}
+    raise ValueError(f"unknown op {op}")
+
+
+def main(argv=None):
+    ap = argparse.ArgumentParser(description=__doc__.split("\n")[0])
+    ap.add_argument("--driver", default=None, help=f"native driver (default {DEFAULT_DRIVER})")
+    ap.add_argument("--lean-dir", default=None, help="use <lean-dir>/.lake/build/bin/jaqal-model")
+    ap.add_argument("--n", type=int, default=3000)
+    ap.add_argument("--seed", type=int, default=1)
+    ap.add_argument("--thorough", action="store_true")
+    ap.add_argument("--json", action="store_true", help="print the whole result as JSON")
+    a = ap.parse_args(argv)
+    driver = a.driver or (f"{a.lean_dir}/.lake/build/bin/jaqal-model" if a.lean_dir else DEFAULT_DRIVER)
+    res = run(a.seed, a.n, driver, a.thorough)
+    if a.json:
+        print(json.dumps(res, indent=1))
+    bad = 0
+    for op, r in res["corr"].items():
+        print(f"corr   {op:<18} cases {r['cases']:>7}  disagreements {len(r['disagreements'])}")
+        for d in r["disagreements"]:
+            print("   ", json.dumps(d)[:300])
+        bad += len(r["disagreements"])
+    for o, r in res["oracle"].items():
+        print(f"oracle {o:<18} cases {r['cases']:>7}  failures {len(r['failures'])}")
+        for d in r["failures"]:
+            print("   ", json.dumps(d)[:300])
+        bad += len(r["failures"])
+    if not a.json:
+        print("distribution:", json.dumps(res["distribution"]))
+    print("nontrivial distinct cases:", res["nontrivial"])
+    return 1 if bad else 0
 
 
 if __name__ == "__main__":
-    main()
+    sys.exit(main())
